@@ -50,6 +50,27 @@ def check_case(ctx, case):
                 ctx.violation('cross-experimental', 'implementation %r, model %r' % (exp.tolist(), m), case)
         ctx.lean.ask(['c01', 'exp', kw['estimator'], frs(edges), frs(d), frs(diffs)], cb2)
 
+    # ---- re-assigning the value table on the same instance (same primary column, other co-variable;
+    #      ordinary <-> cross): the products must follow the *current* table
+    if N >= 3 and not sparse:
+        steps = [('cross(z1,z3)', vals[:, [0, 2]]), ('ordinary(z1)', vals[:, 0]), ('cross(z1,z2)', vals[:, :2])]
+        for label, tab in steps:
+            try:
+                with quiet():
+                    V.values = tab.copy()
+                    got = (np.asarray(V.pairwise_diffs, float), np.asarray(V.experimental, float))
+                    F = Variogram(coords, tab.copy(), **kw)
+                    want = (np.asarray(F.pairwise_diffs, float), np.asarray(F.experimental, float))
+            except ValueError as e:
+                ctx.reject('reassign-ValueError')
+                break
+            ctx.count('reassign:' + label)
+            if not all_close(got[0], want[0], rel=1e-12, abs_=1e-300) or not all_close(got[1], want[1], rel=1e-9):
+                ctx.violation('cross-reassign', 'after values = %s on the same instance the pairwise products / semivariances '
+                              'are not those of the assigned table: %r vs fresh %r' % (label, got[1].tolist(), want[1].tolist()),
+                              dict(case, reassign=label))
+                break
+
     # ---- the table -----------------------------------------------------------------------------
     tkw = dict(kw)
     if case.get('directional'):
